@@ -458,7 +458,7 @@ void generate(const std::string &, Rng &wl, Rng &fl, Case &c)
   for (int t = 0; t < ntasks; ++t)
   {
     TaskProg p;
-    int n = (int)wl.range(1, 8);
+    int n = (int)wl.range(1, vsim::tier_scale() > 1 && wl.chance(0.5) ? 14 : 8);
     int nscope = 0;
     std::vector<int> open;
     for (int i = 0; i < n; ++i)
